@@ -15,7 +15,7 @@ theorem source_rules :
     Facts.C34.largestValidAsModelled = true ∧ Facts.C34.planAsModelled = true ∧
     Facts.C34.ctrCounterIsOffsetDiv16 = true ∧ Facts.C34.verifierComparesSHA256 = true ∧
     Facts.C34.rejectsLongPart = true ∧ Facts.C34.rejectsBeyondTail = true ∧
-    Facts.C34.rejectsTruncatedSplit = true := by decide
+    Facts.C34.rejectsTruncatedSplit = true ∧ Facts.C34.cursorAdvancesToWindowEnd = true := by decide
 
 /-- Every CDN request range of a plan is a valid aligned window (offset and limit divisible by 4 KiB,
 limit divides 1 MiB, the range does not cross a 1 MiB boundary), and the ranges exactly cover the
